@@ -130,3 +130,35 @@ claim("C26", "writer template vs reader regular expression (regex AST inclusion)
       "reader's pattern and yields the writer's index, the mean file and leftover temporary files are rejected, the file of index "
       "n_samples is removed/refused before the first write and the reader takes the longest run from 0, files are named by the global "
       "and filled by the local index. Mean/variance arithmetic and HDF5 contents are not decided.", TRUST, "DESIGN.md section 4, C26")
+
+claim("C09", "table check: values the configuration writer can store vs literals and polarity each Hartley back end reads; mode-specialised interpretation of the FFT/Hartley apply methods",
+      "Decides that the three Hartley implementations (ducc, SciPy, JAX) read the same configuration key with literals the writer "
+      "can actually produce and with the same polarity, and that FFT/Hartley operators take the volume factor from the domain for "
+      "TIMES/ADJOINT and from the target for the inverse modes, build the result on _tgt(mode) and pick the direction from the "
+      "input's harmonic flag. Numerical agreement of the transforms and SHT normalisation are not decided.", TRUST, "DESIGN.md section 4, C09")
+
+claim("C10", "gather/scatter pairing check (same index attribute, same axis, accumulating scatter); def-use (alias-only) check of create_power_operator",
+      "Decides that the distributor gathers and scatters through the same index on the same axis with an accumulating scatter (so "
+      "the adjoint sums over each bin), that the two directions land on target/domain respectively, and that a power operator is "
+      "the diagonal of exactly the distributed spectrum field. power_analyze's binning arithmetic is not decided.", TRUST,
+      "DESIGN.md section 4, C10")
+
+claim("C11", "must-pass-through (dominance) of add_metric on every return reachable with want_metric, over the computed population of LikelihoodEnergyOperator subclasses",
+      "Decides that every classic likelihood energy that computes its value locally attaches a metric on every path on which one is "
+      "requested (and checks its input first), that the standard Hamiltonian attaches SamplingEnabler(likelihood metric, prior "
+      "metric, controller) exactly when wanted, and that operator sums carry a metric iff all summands do. That the value is a "
+      "negative log-pdf and the metric the Fisher information is calculus and not decided.", TRUST, "DESIGN.md section 4, C11")
+
+claim("C13", "dominance of the refusal guards before every white-noise draw / square root; finite enumeration (from_inverse x stored transformation) of the inverse bookkeeping by mode-specialised interpretation",
+      "Decides that operators which cannot represent a covariance refuse to sample (missing dtype, non-positive factor/diagonal, "
+      "inverse of a sum, sandwich without invertible bun) before anything is drawn, and that the inverse flag is threaded exactly: "
+      "adapters flip it iff the inverse bit is set, the diagonal divides by sqrt(diag) iff from_inverse XOR (trafo>=2), sandwich "
+      "samples are bun^H(cheese sample) / bun^-1(cheese inverse sample). The covariance of the samples is statistical and not decided.",
+      TRUST, "DESIGN.md section 4, C13")
+
+claim("C03", "sibling term comparison of the point-wise table (value column) and rule-based symbolic differentiation with sympy as term normaliser (derivative column); def-use check of the metric request through the combinators",
+      "Decides that for every entry of the point-wise table the (value, derivative) helper returns the same value term as plain "
+      "evaluation and - for all smooth entries and the smooth pieces of softplus/sinc - a derivative term equal to the symbolic "
+      "derivative; and that want_metric is threaded through Linearization.new/trivial_jac/add_metric/make_var, products and sums. "
+      "Decided on expression trees taken from the source; NIFTy is not executed. Jacobians of compositions are not decided.",
+      TRUST + " sympy 1.14 (from the offline wheelhouse) as algebraic normaliser for R03.2.", "DESIGN.md section 4, C03")
